@@ -522,7 +522,58 @@ def _pool_sweep(ctx):
             check_program(ctx, rng, kind, [FSpec("b", "factory", _counting(fname, fn), fname), FSpec("c", "factory", _counting(fname, fn), fname)], MODES[:1])
 
 
-DIRECTED = {"default-pool-sweep": _pool_sweep}
+def _several_lookalike_defaults_in_one_model(ctx):
+    """Defaults of DIFFERENT fields that equal each other across types (Decimal('1') == Fraction(1) == IE.ONE == 1 == True): each absent
+    field holds ITS default, of its own type (seeded change: captured constants de-duplicated through a dict, i.e. by ==)."""
+    import random  # noqa: PLC0415
+    from decimal import Decimal  # noqa: PLC0415
+    from fractions import Fraction  # noqa: PLC0415
+
+    rng = random.Random(0)
+    ones = [Decimal("1"), Fraction(1, 1), next(m for m in IE8 if m == 1), 1.0, True, 1]
+    zeros = [Fraction(0), Decimal("0"), -0.0, False, 0]
+    for vals in (ones, list(reversed(ones)), zeros, list(reversed(zeros))):
+        for kind in ("dataclass", "namedtuple", "init", "attrs"):
+            fields = [FSpec("a", "req")] + [FSpec(f"d{i}", "default", v) for i, v in enumerate(vals)]
+            check_program(ctx, rng, kind, fields, MODES[:2])
+
+
+def _attrs_parameters_named_unlike_their_attributes(ctx):
+    """attrs lets a constructor PARAMETER be named unlike the attribute (private `_count` -> `count`, alias=), and a
+    Factory(takes_self=True) default can only be evaluated by the constructor, so such a field is passed only when present - under the
+    parameter's name (seeded change: the field id was used for these 'packed' fields)."""
+    try:
+        from attrs import Factory, define, field  # noqa: PLC0415
+    except ImportError:
+        ctx.count("attrs_missing")
+        return
+    from adaptix import Retort, name_mapping  # noqa: PLC0415
+
+    @define
+    class Basket:
+        items: list = Factory(list)
+        _count: int = field(default=Factory(lambda self: len(self.items), takes_self=True))
+        total: int = field(alias="total_price", default=Factory(lambda self: 10 * len(self.items), takes_self=True))
+
+    @define
+    class Swapped:
+        first: int = field(alias="second", default=Factory(lambda self: -1, takes_self=True))
+        second: int = field(alias="first", default=Factory(lambda self: -2, takes_self=True))
+    cases = [(Basket, {}, lambda: Basket()), (Basket, {"items": [1, 2]}, lambda: Basket([1, 2])), (Basket, {"items": [1, 2], "total": 99}, lambda: Basket([1, 2], total_price=99)),
+             (Basket, {"items": [1, 2], "count": 7}, lambda: Basket([1, 2], count=7)), (Basket, {"count": 7, "total": 99}, lambda: Basket(count=7, total_price=99)),
+             (Swapped, {}, lambda: Swapped()), (Swapped, {"first": 1}, lambda: Swapped(second=1)), (Swapped, {"first": 1, "second": 2}, lambda: Swapped(second=1, first=2))]
+    for dt, sc in MODES[:3]:
+        r = Retort(debug_trail=dt, strict_coercion=sc, recipe=[name_mapping(Basket, map={"_count": "count"})])
+        for model, data, build in cases:
+            want, got = build(), attempt(r.load, dict(data), model)
+            ctx.evaluated(("attrs-param-names", model.__name__, repr(data), dt.name), nontrivial=True)
+            ctx.count("loads")
+            if got.kind != "ok" or got.value != want:
+                ctx.violation("constructor-gets-wrong-arguments:attrs:parameter-name-differs", f"{model.__name__} from {data!r}: {got!r:.160}, the constructor itself gives {want!r}", {"model": model.__name__, "data": repr(data)})
+
+
+DIRECTED = {"default-pool-sweep": _pool_sweep, "several-lookalike-defaults-in-one-model": _several_lookalike_defaults_in_one_model,
+            "attrs-parameters-named-unlike-their-attributes": _attrs_parameters_named_unlike_their_attributes}
 from ..suite_leg import make as _suite_leg  # noqa: E402
 
 DIRECTED["suite-under-monitors"] = _suite_leg("C08")
